@@ -20,7 +20,8 @@ Statement forms (JSON):
   {"op":"if","cond":c,"a":O,"b":O|None,"form":"ctx"|"cb","body":[..]}
   {"op":"loop","var":I,"start":s,"stop":e,"step":k,"form":"ctx"|"cb","body":[..]}
   {"op":"foreach","array":A,"var":V,"idxvar":I|None,"body":[..]}
-  {"op":"until","max":n,"var":I,"body":[..],"exit":{"val":V,"atmost":v}}
+  {"op":"until","max":n,"var":I,"body":[..],"exit":{"val":V,"atmost":v},"cleanup":[..]?}
+  loops may carry "reg": "R5" (explicit loop register); {"kind":"reg","name":RF,"reuse":true} measures into an existing RegFuture
   {"op":"flush"}
 IDX may also be {"at": {"array":A2,"idx":j}} (index read from another array entry).
 Values V/O: int | {"kind":"entry","array":A,"idx":IDX} | {"kind":"fut","name":F} | {"kind":"reg","name":R} |
@@ -69,6 +70,8 @@ def static_decls(stmts: list, out: list) -> list:
             out.append(("array", st["to"]["name"], [None]))
         if "body" in st:
             static_decls(st["body"], out)
+        if st.get("cleanup"):
+            static_decls(st["cleanup"], out)
     return out
 
 
@@ -249,6 +252,8 @@ class DirectEval:
                 self.block(st["body"])
                 if self.read(st["exit"]["val"]) <= st["exit"]["atmost"]:
                     break
+                if st.get("cleanup"):
+                    self.block(st["cleanup"])     # runs when the exit condition does not hold, before the next iteration
                 i += 1
         else:
             raise ValueError(op)
